@@ -1412,7 +1412,10 @@ def expr_sel_features(module_node, req, selected_text, new):
     f = dict(starts_on_keyword_operator=False, unary_edge=False, lambda_params=[], fstring_conv=[], ends_on_operator=False)
     if selected_text:
         try:
-            tr = ast.parse(selected_text.strip(), mode='eval')
+            try:
+                tr = ast.parse(selected_text.strip(), mode='eval')
+            except SyntaxError:
+                tr = ast.parse('(' + selected_text.strip() + ')', mode='eval')
             f['fstring_conv'] = sorted({chr(n.conversion) for n in ast.walk(tr)
                                         if isinstance(n, ast.FormattedValue) and n.conversion != -1})
             f['lambda_params'] = sorted({a.arg for n in ast.walk(tr) if isinstance(n, ast.Lambda) for a in n.args.args} |
@@ -1867,6 +1870,7 @@ def matrix_tasks(ctx):
     """(inline tasks, extract tasks): every slot with the critical right-hand sides (+ a seeded sample of the
     others; all of them in the thorough tier); every slot with a rotating choice of selections."""
     rng = ctx.rng
+    warnings.simplefilter('ignore', SyntaxWarning)
     inl, ext = [], []
     slots = [(s, False) for s in EXPR_SLOTS] + [(s, True) for s in STMT_SLOTS]
     rhs_all = [r for r, _ in RHS_KINDS]
